@@ -100,6 +100,9 @@ func (Logout) Run(c *orch.Case) *orch.Outcome {
 			rootSpec.Destination = idp.S(nearMiss(world.SLO, rng))
 		}
 		root = b.ResponseEl(rootSpec)
+		if (c.Seed/4)%2 == 1 {
+			claimValidated(root) // the sender claims, by attribute and by child elements, to have been validated
+		}
 		b.Decorate(root)
 		switch in.Sig {
 		case "trusted":
